@@ -426,7 +426,18 @@ fn opt_search(pid: &str, s: &mut Search, rng: &mut Rng) {
         if pid == "C08" && kind < 4 {
             // chained stages on real states (the CLI chains three)
             let k = 1 + rng.usize(4);
-            let cfgs: Vec<String> = (0..k).map(|_| crate::gen::gen_cfg_small(rng)).collect();
+            let mut cfgs: Vec<String> = (0..k).map(|_| crate::gen::gen_cfg_small(rng)).collect();
+            if rng.chance(1, 5) {
+                // steps far larger than a parameter's range (no setting is excluded by the property):
+                // every proposal overshoots a bound, so only the clamp keeps the parameters in range
+                let big = *rng.pick(&[3.0, 25.0, 2.5]);
+                for c in cfgs.iter_mut() {
+                    let mut t: Vec<String> = c.split(' ').map(|x| x.to_string()).collect();
+                    t[0] = format!("{}", *rng.pick(&[5u64, 10, 20]));
+                    t[5] = fhex(big);
+                    *c = t.join(" ");
+                }
+            }
             let req = format!("oracle opt_chain {} {} crystal {}", k, cfgs.join(" "), crate::gen::gen_state_desc(rng, true));
             s.class("chain");
             s.run("Opt.inRange", &req, "c08_chain", "a chain of optimisation stages left the declared ranges / crystal family / finite score", true);
@@ -483,8 +494,9 @@ fn gen_pair_placements(rng: &mut Rng) -> ([f64; 9], [f64; 9]) {
     };
     let (a1, a2) = (ang(rng), ang(rng));
     let (m1, m2) = (rng.chance(1, 4), rng.chance(1, 4));
-    let d = match rng.below(6) {
+    let d = match rng.below(7) {
         0 => 0.0,
+        6 => rng.range(3.0, 12.0),
         1 => rng.range(0.0, 0.5),
         2 | 3 => rng.range(1.0, 2.6),
         4 => *rng.pick(&[1.0, 2.0, std::f64::consts::SQRT_2, 1.5, 0.5]),
